@@ -186,6 +186,19 @@ def corpus_layer(ctx):
         if not case.run_impl().startswith('OK'):
             raise RuntimeError('corpus statement is not accepted: %s' % text)
         ctx.count('corpus')
+    # equal numbers of different spellings are one value to DISTINCT; a negated key keeps NULL first (ascending) / last
+    from decimal import Decimal as D
+    rows2 = [(D('5.0'), 3, 'a'), (D('5.00'), None, 'b'), (D('5'), 1, 'a'), (D('7'), None, 'c'), (D('7.0'), 2, 'b'), (None, 5, 'a'), (D('-2'), 4, 'c')]
+    table2 = impl.HTable('u', [('d', D), ('j', int), ('s', str)], rows2)
+    for text in ('SELECT DISTINCT d FROM #u', 'SELECT DISTINCT d, s FROM #u ORDER BY s', 'SELECT DISTINCT d FROM #u LIMIT 2',
+                 'SELECT DISTINCT sum(d) AS t FROM #u GROUP BY s', 'SELECT s, j FROM #u ORDER BY -j', 'SELECT s, j FROM #u ORDER BY -j DESC',
+                 'SELECT s, d FROM #u ORDER BY -d, s LIMIT 3', 'SELECT s, max(j) AS m FROM #u GROUP BY s ORDER BY -max(j)',
+                 'SELECT s FROM #u ORDER BY -j, s DESC'):
+        case = SqlCase([table2], text, name='corpus')
+        case.check(ctx)
+        if not case.run_impl().startswith('OK'):
+            raise RuntimeError('corpus statement is not accepted: %s' % text)
+        ctx.count('corpus')
 
 
 def run(ctx):
